@@ -570,13 +570,16 @@ theorem fmd_ext_of_empty_source (lessF : Nat → Nat) (occF : Nat → Nat → Na
    forward_ext_dead lessF occF iv a N B h0 hl hlB hr hrB hB hN hk' hms⟩
 
 /-- translated `smems` = sweep model, for **every** family of operations the translated extension functions compute on
-a closed set of safe intervals (`SafeOps`), up to the order of the matches -/
+a closed set of safe intervals (`SafeOps`), up to the order of the matches; `hdead`: the model reports nothing when
+`pattern[i]` does not occur (holds for `l ≥ 1`; how the text reaches the empty answer there is left free — seeded C06-H4).
+The unconditional step-by-step equality is the soft module `Thm/GenSrcFmdSmemsModel.lean`. -/
 theorem fmd_smems_source_eq_model (lessF : Nat → Nat) (occF : Nat → Nat → Nat) (ops : SmemModel.Ops Bi)
     (S : Nat → Bi → Prop) (pat : List Nat) (hS : SafeOps lessF occF ops S pat) (i l : Nat) (hi : i < pat.length)
-    (hL : pat.length + 1 < 2 ^ 63) :
+    (hL : pat.length + 1 < 2 ^ 63)
+    (hdead : (ops.initWith i (pat.getD i 0)).size = 0 → SmemModel.smems ops pat i l = []) :
     ∃ res, SrcFmdSmems.smems lessF occF dnaCompl pat i l = Rs.Res.ok res ∧
       res.Perm ((SmemModel.smems ops pat i l).map hitT) :=
-  smems_eq_model hS i l hi hL
+  smems_eq_model_of hS i l hi hL hdead
 
 /-- translated `all_smems` = sweep model, given that the translated `smems` returns the model's matches in some order -/
 theorem fmd_all_smems_source_eq_model (lessF : Nat → Nat) (occF : Nat → Nat → Nat) (ops : SmemModel.Ops Bi)
